@@ -154,7 +154,13 @@ pub fn filter_file_pattern<'a>(
   let grep = lang.ast_grep(&file_content);
   let do_match = |ast_grep: AstGrep, matcher: &'a Pattern<SgLang>| {
     let fixed = matcher.fixed_string();
-    if !fixed.is_empty() && !file_content.contains(&*fixed) {
+    // the literal is only a sound file prefilter when every pattern token must appear with its text:
+    // ast/relaxed may skip unnamed pattern tokens and signature ignores text altogether
+    let text_required = matches!(
+      matcher.strictness,
+      ast_grep_core::MatchStrictness::Cst | ast_grep_core::MatchStrictness::Smart
+    );
+    if text_required && !fixed.is_empty() && !file_content.contains(&*fixed) {
       #[cfg(feature = "verif-hooks")]
       ast_grep_core::verif::prune(
         "cli.fixed_string",
